@@ -33,9 +33,21 @@ extern "C" int unlink(const char *path)
 	return (int)syscall(SYS_unlink, path);
 }
 
-static std::string sid_of(int i) { char b[40]; snprintf(b, sizeof b, "%032x", 0xabc000 + i); return b; }
+static std::atomic<int> g_write_delay_permille(0);
+extern "C" ssize_t write(int fd, const void *buf, size_t n)
+{
+	int pm = g_write_delay_permille.load(std::memory_order_relaxed);
+	if (pm && fd > 2) {
+		t_rng ^= t_rng << 13; t_rng ^= t_rng >> 7; t_rng ^= t_rng << 17;
+		if ((int)(t_rng % 1000) < pm) usleep(20 + (t_rng >> 24) % 300);
+	}
+	return (ssize_t)syscall(SYS_write, fd, buf, n);
+}
 
-struct shared_counters { std::atomic<long> rounds, lost, wrong, disturber_loads, gc_runs, disturber_hits; };
+// the first four hex digits select the lock slot of the storage: different ids must be able to use different slots
+static std::string sid_of(int i) { char b[40]; snprintf(b, sizeof b, "%04x%028x", (unsigned)(i * 0x1235 + 7) & 0xffff, 0xabc000 + i); return b; }
+
+struct shared_counters { std::atomic<long> rounds, lost, wrong, disturber_loads, gc_runs, disturber_hits, threw; char what[200]; };
 
 static void owner_loop(cppcms::sessions::session_storage &st, int me, long rounds, long now, shared_counters *sc, std::string *witness)
 {
@@ -43,11 +55,19 @@ static void owner_loop(cppcms::sessions::session_storage &st, int me, long round
 	for (long n = 0; n < rounds; n++) {
 		std::string dead = "dead-" + std::to_string(me) + "-" + std::to_string(n);
 		std::string live = "live-" + std::to_string(me) + "-" + std::to_string(n) + std::string((size_t)(n % 7) * 100, 'x');
-		st.save(sid, (time_t)(now - 10), dead);
-		if (n % 3 == 0) usleep(n % 50);
-		st.save(sid, (time_t)(now + 1000 + n % 5), live);
 		time_t t = 0; std::string out;
-		bool ok = st.load(sid, t, out);
+		bool ok = false;
+		try {
+			st.save(sid, (time_t)(now - 10), dead);
+			if (n % 3 == 0) usleep(n % 50);
+			st.save(sid, (time_t)(now + 1000 + n % 5), live);
+			ok = st.load(sid, t, out);
+		}
+		catch (std::exception const &e) {
+			if (sc->threw++ == 0) snprintf(sc->what, sizeof sc->what, "round %ld owner %d: %s", n, me, e.what());
+			sc->rounds++;
+			continue;
+		}
 		sc->rounds++;
 		if (!ok) { if (sc->lost++ == 0 && witness) *witness = "round " + std::to_string(n) + " owner " + std::to_string(me) + ": save(live) returned, then load() reported no session"; }
 		else if (out != live || (long)t != now + 1000 + n % 5) { if (sc->wrong++ == 0 && witness) *witness = "round " + std::to_string(n) + ": load returned " + out.substr(0, 30) + " deadline " + std::to_string((long)t); }
@@ -61,7 +81,7 @@ static void run_threads(rng &r, std::string const &dir, int mode, long rounds)
 	booster::shared_ptr<cppcms::sessions::session_storage> st = f.get();
 	long now = vclock::now();
 	int owners = r.range(1, 3), loaders = r.range(0, 2);
-	shared_counters sc; sc.rounds = sc.lost = sc.wrong = sc.disturber_loads = sc.gc_runs = sc.disturber_hits = 0;
+	shared_counters sc; sc.rounds = sc.lost = sc.wrong = sc.disturber_loads = sc.gc_runs = sc.disturber_hits = sc.threw = 0; sc.what[0] = 0;
 	std::atomic<bool> stop(false);
 	std::vector<std::thread> th;
 	std::string witness;
@@ -79,6 +99,7 @@ static void run_threads(rng &r, std::string const &dir, int mode, long rounds)
 	for (auto const &w : wit) if (!w.empty() && witness.empty()) witness = w;
 	if (sc.lost.load()) O().viol("fstore:live-session-removed-by-concurrent-load-or-gc", std::string(mn[mode]) + " locks, threads: " + std::to_string(sc.lost.load()) + " of " + std::to_string(sc.rounds.load()) + " rounds; " + witness, rp);
 	if (sc.wrong.load()) O().viol("fstore:load-returned-other-than-the-last-save", std::string(mn[mode]) + " locks, threads; " + witness, rp);
+	if (sc.threw.load()) O().viol("fstore:save-or-load-threw-under-concurrency", std::string(mn[mode]) + " locks, threads: " + sc.what, rp);
 	O().count("conc_rounds", sc.rounds.load()); O().count("conc_gc_runs", sc.gc_runs.load()); O().count("conc_disturber_loads", sc.disturber_loads.load()); O().count("conc_disturber_hits", sc.disturber_hits.load());
 	O().count(std::string("conc_scenarios_threads_") + mn[mode]);
 	O().seen("shapes", mix(mix(mode, owners), loaders));
@@ -91,7 +112,7 @@ static void run_processes(rng &r, std::string const &dir, int mode, long rounds)
 	booster::shared_ptr<cppcms::sessions::session_storage> st = f.get();
 	long now = vclock::now();
 	shared_counters *sc = (shared_counters *)mmap(0, sizeof(shared_counters), PROT_READ | PROT_WRITE, MAP_ANONYMOUS | MAP_SHARED, -1, 0);
-	new (sc) shared_counters(); sc->rounds = sc->lost = sc->wrong = sc->disturber_loads = sc->gc_runs = sc->disturber_hits = 0;
+	new (sc) shared_counters(); sc->rounds = sc->lost = sc->wrong = sc->disturber_loads = sc->gc_runs = sc->disturber_hits = sc->threw = 0; sc->what[0] = 0;
 	fflush(stdout);
 	pid_t kids[2];
 	for (int k = 0; k < 2; k++) {
@@ -113,10 +134,111 @@ static void run_processes(rng &r, std::string const &dir, int mode, long rounds)
 	std::string rp = "{\"mode\":\"" + std::string(mn[mode]) + "\",\"processes\":3}";
 	if (sc->lost.load()) O().viol("fstore:live-session-removed-by-concurrent-load-or-gc", std::string(mn[mode]) + " locks, 3 processes: " + std::to_string(sc->lost.load()) + " of " + std::to_string(sc->rounds.load()) + " rounds; " + witness, rp);
 	if (sc->wrong.load()) O().viol("fstore:load-returned-other-than-the-last-save", std::string(mn[mode]) + " locks, 3 processes; " + witness, rp);
+	if (sc->threw.load()) O().viol("fstore:save-or-load-threw-under-concurrency", std::string(mn[mode]) + " locks, 3 processes: " + sc->what, rp);
 	O().count("conc_rounds", sc->rounds.load()); O().count("conc_gc_runs", sc->gc_runs.load()); O().count("conc_disturber_loads", sc->disturber_loads.load()); O().count("conc_disturber_hits", sc->disturber_hits.load());
 	O().count(std::string("conc_scenarios_processes_") + mn[mode]);
 	O().seen("shapes", mix(100 + mode, 3));
 	munmap(sc, sizeof(shared_counters));
+}
+
+// pre-forked workers as cppcms::service runs them: the storage is created once, then W worker processes are forked, each with T
+// owner threads (own session ids) and a loader thread that loads the ids of everybody. With 'leaver' one more worker does nothing
+// but leave in an orderly way (its storage object is destroyed) while the others work.
+static void run_workers(rng &r, std::string const &dir, int mode, long rounds, bool leaver)
+{
+	int W = r.range(2, 3), T = r.range(2, 3);
+	cppcms::sessions::session_file_storage_factory *f = new cppcms::sessions::session_file_storage_factory(dir, r.range(1, 4) * W, W, mode == 2);
+	long now = vclock::now();
+	shared_counters *sc = (shared_counters *)mmap(0, sizeof(shared_counters), PROT_READ | PROT_WRITE, MAP_ANONYMOUS | MAP_SHARED, -1, 0);
+	new (sc) shared_counters(); sc->rounds = sc->lost = sc->wrong = sc->disturber_loads = sc->gc_runs = sc->disturber_hits = sc->threw = 0; sc->what[0] = 0;
+	char *wit = (char *)mmap(0, 4096, PROT_READ | PROT_WRITE, MAP_ANONYMOUS | MAP_SHARED, -1, 0);
+	fflush(stdout);
+	std::vector<pid_t> kids;
+	if (leaver) {
+		pid_t p = fork();
+		if (p == 0) { usleep(2000); delete f; _exit(0); }      // an orderly exit of one worker
+		kids.push_back(p);
+	}
+	for (int w = 0; w < W; w++) {
+		pid_t p = fork();
+		if (p == 0) {
+			booster::shared_ptr<cppcms::sessions::session_storage> st = f->get();
+			if (leaver) usleep(20000);        // work after the other one left
+			std::atomic<bool> stop(false);
+			std::vector<std::thread> th;
+			std::vector<std::string> wits(T);
+			for (int t = 0; t < T; t++) th.push_back(std::thread([&, t]() { t_rng += 31 * (w * 8 + t); owner_loop(*st, w * T + t, rounds, now, sc, &wits[t]); }));
+			std::thread loader([&]() { t_rng += 999 + w; uint64_t x = 88172645463325252ull + w; while (!stop.load()) { x ^= x << 13; x ^= x >> 7; x ^= x << 17; time_t t; std::string o; try { if (st->load(sid_of((int)(x % (W * T))), t, o)) sc->disturber_hits++; } catch (std::exception const &) {} sc->disturber_loads++; } });
+			for (auto &t : th) t.join();
+			stop = true; loader.join();
+			for (auto const &x : wits) if (!x.empty() && !wit[0]) snprintf(wit, 4096, "%s", x.c_str());
+			_exit(0);
+		}
+		kids.push_back(p);
+	}
+	int crashed = 0;
+	for (pid_t k : kids) { int st = 0; waitpid(k, &st, 0); if (!WIFEXITED(st) || WEXITSTATUS(st) != 0) crashed++; }
+	for (int i = 0; i < W * T; i++) syscall(SYS_unlink, (dir + "/" + sid_of(i)).c_str());
+	static char const *mn[] = { "mutex", "pshared-mutex", "fcntl" };
+	std::string shape = std::string(mn[mode]) + " locks, " + std::to_string(W) + " worker processes x " + std::to_string(T) + " owner threads" + (leaver ? ", one more worker left in an orderly way" : "");
+	std::string rp = "{\"mode\":\"" + std::string(mn[mode]) + "\",\"workers\":" + std::to_string(W) + ",\"threads\":" + std::to_string(T) + ",\"leaver\":" + (leaver ? "true" : "false") + "}";
+	std::string sfx = leaver ? ":after-a-worker-left" : ":workers";
+	if (sc->lost.load()) O().viol("fstore:live-session-reported-absent" + sfx, shape + ": " + std::to_string(sc->lost.load()) + " of " + std::to_string(sc->rounds.load()) + " rounds; " + wit, rp);
+	if (sc->wrong.load()) O().viol("fstore:load-returned-other-than-the-last-save" + sfx, shape + "; " + wit, rp);
+	if (sc->threw.load()) O().viol("fstore:save-or-load-threw-under-concurrency" + sfx, shape + ": " + sc->what, rp);
+	if (crashed) O().viol("fstore:worker-process-died" + sfx, shape, rp);
+	O().count("conc_rounds", sc->rounds.load()); O().count("conc_disturber_loads", sc->disturber_loads.load()); O().count("conc_disturber_hits", sc->disturber_hits.load());
+	O().count(std::string(leaver ? "conc_scenarios_worker_left_" : "conc_scenarios_workers_") + mn[mode]);
+	O().seen("shapes", mix(mix(200 + mode, W), mix(T, leaver)));
+	munmap(sc, sizeof(shared_counters)); munmap(wit, 4096);
+	delete f;
+}
+
+// "If the process ... stops at any point while a session file is being written, a later load returns a complete value or reports
+// that there is no session": a worker process is killed while it saves; afterwards another worker must still be able to use the
+// storage (the dead one may have held the lock of the session). The prober gets a very generous time for a microsecond operation.
+static void run_killed_saver(rng &r, std::string const &dir, int mode, int kills)
+{
+	cppcms::sessions::session_file_storage_factory *f = new cppcms::sessions::session_file_storage_factory(dir, 1, 2, mode == 2);    // one lock slot: every id shares it
+	long now = vclock::now();
+	static char const *mn[] = { "mutex", "pshared-mutex", "fcntl" };
+	std::string rp = "{\"mode\":\"" + std::string(mn[mode]) + "\",\"scenario\":\"killed-saver\"}";
+	fflush(stdout);
+	for (int k = 0; k < kills; k++) {
+		pid_t saver = fork();
+		if (saver == 0) {
+			g_write_delay_permille = 900;
+			booster::shared_ptr<cppcms::sessions::session_storage> st = f->get();
+			for (long n = 0;; n++) st->save(sid_of(50), (time_t)(now + 1000), "value-" + std::to_string(n) + std::string(3000, 'v'));
+		}
+		usleep(3000 + r.below(20000));
+		kill(saver, SIGKILL); int s; waitpid(saver, &s, 0);
+		O().count("savers_killed_while_saving");
+		pid_t prober = fork();
+		if (prober == 0) {
+			booster::shared_ptr<cppcms::sessions::session_storage> st = f->get();
+			time_t t; std::string o;
+			bool had = st->load(sid_of(50), t, o);
+			bool fine = !had || (o.size() > 6 && o.compare(0, 6, "value-") == 0 && o.size() - o.find('v', 6) == 3000 && (long)t == now + 1000);
+			st->save(sid_of(51), (time_t)(now + 1000), "other");
+			bool ok2 = st->load(sid_of(51), t, o) && o == "other";
+			_exit(fine && ok2 ? 0 : 3);
+		}
+		int st = 0; bool done = false;
+		for (int w = 0; w < 6000 && !done; w++) { if (waitpid(prober, &st, WNOHANG) == prober) done = true; else usleep(10000); }     // 60 s
+		if (!done) {
+			kill(prober, SIGKILL); waitpid(prober, &st, 0);
+			O().viol("fstore:storage-blocked-after-worker-died-while-saving", std::string(mn[mode]) + " locks: a worker process was killed inside save(); 60 s later load() in another worker has not returned", rp);
+			break;      // the lock stays taken: nothing more to learn from this storage object
+		}
+		if (!WIFEXITED(st) || WEXITSTATUS(st) != 0) O().viol("fstore:wrong-result-after-worker-died-while-saving", std::string(mn[mode]) + " locks: status " + std::to_string(st), rp);
+		O().count("probes_after_killed_saver");
+	}
+	syscall(SYS_unlink, (dir + "/" + sid_of(50)).c_str()); syscall(SYS_unlink, (dir + "/" + sid_of(51)).c_str());
+	O().count(std::string("conc_scenarios_killed_saver_") + mn[mode]);
+	O().seen("shapes", mix(300 + mode, kills));
+	// not deleted when a lock may be held for ever: the destructor does not need it, but keep the object out of the way all the same
+	delete f;
 }
 
 int main(int argc, char **argv)
@@ -132,7 +254,14 @@ int main(int argc, char **argv)
 	vclock::now() = 1700000000L;
 	for (long i = 0; i < scen && O().viol_count < 4; i++) {
 		int mode = (int)(i % 3);
-		if (procs && mode != 0) run_processes(r, dir, mode, rounds);      // plain mutexes cannot exclude other processes
+		if (procs && mode != 0) {      // plain mutexes cannot exclude other processes
+			switch ((i / 3) % 4) {
+			case 0: run_processes(r, dir, mode, rounds); break;
+			case 1: run_workers(r, dir, mode, std::max(50L, rounds / 4), false); break;
+			case 2: run_workers(r, dir, mode, std::max(50L, rounds / 4), true); break;
+			default: run_killed_saver(r, dir, mode, 6);
+			}
+		}
 		else run_threads(r, dir, mode, rounds);
 	}
 	O().count("unlinks", g_unlinks.load()); O().count("unlinks_delayed", g_unlinks_delayed.load());
